@@ -145,7 +145,7 @@ def audit(prop):
     return results, p.stdout
 
 
-def build_harness():
+def build_harness(race=False):
     src = HARNESS
     if REPO != "/repo":
         # self-test against a scratch copy: never touch the committed go.mod
@@ -158,7 +158,33 @@ def build_harness():
     shutil.copyfile(os.path.join(REPO, "go.sum"), os.path.join(src, "go.sum"))
     exe = os.path.join(BUILD, "harness")
     p = run(["go", "build", "-tags", "verif", "-o", exe, "."], cwd=src, env=GOENV, timeout=1200)
+    if p.returncode == 0 and race:
+        p = run(["go", "build", "-race", "-tags", "verif", "-o", exe + "-race", "."], cwd=src, env=GOENV, timeout=1800)
     return p.returncode == 0, p.stderr[-4000:]
+
+
+def run_race(prop, tier, seed):
+    """Run the listed suites under the Go race detector; returns (reports, runs)."""
+    exe = os.path.join(BUILD, "harness-race")
+    reports, runs = [], []
+    for s in PROPS[prop].get("race", []):
+        n = s["quick"] if tier == "quick" else s["thorough"]
+        out = os.path.join(BUILD, "cases", "race_%s_%d.jsonl" % (s["name"], os.getpid()))
+        env = dict(os.environ, GORACE="halt_on_error=0 history_size=3")
+        try:
+            p = run([exe, "-suite", s["name"], "-seed", str(seed), "-n", str(n), "-tier", tier, "-out", out], env=env, timeout=3000)
+            err, rc = p.stderr, p.returncode
+        except subprocess.TimeoutExpired:
+            err, rc = "timed out (deadlock?)", -1
+        if os.path.exists(out):
+            os.unlink(out)
+        blocks = re.findall(r"WARNING: DATA RACE.*?={10,}", err, re.S)
+        runs.append({"suite": s["name"], "n": n, "exit": rc, "data_races": len(blocks)})
+        for b in blocks:
+            reports.append({"suite": s["name"], "n": n, "seed": seed, "report": b[:6000]})
+        if rc not in (0, 66) and not blocks:
+            reports.append({"suite": s["name"], "n": n, "seed": seed, "report": "race-instrumented run failed: exit %s: %s" % (rc, err[-2000:])})
+    return reports, runs
 
 
 # ---------------------------------------------------------------- cases -> Coq
@@ -377,7 +403,7 @@ def main():
         scan = source_scan()
         if scan:
             broken.append({"what": "forbidden construct in Coq sources", "detail": scan})
-        ok_h, herr = build_harness()
+        ok_h, herr = build_harness(race=bool(cfg.get("race")))
     if not ok_h:
         broken.append({"what": "harness build against /repo (-tags verif)", "detail": herr})
     obligations = len(cfg["theorems"])
@@ -391,6 +417,7 @@ def main():
     cases, dists, codes = [], [], []
     corr_ok = ok_h and os.path.exists(os.path.join(COQ, "Corr", "Run.vo"))
     mism, monf, unknown = [], [], []
+    race_violations = []
     eval_errors = []
     if corr_ok:
         scale = 1
@@ -408,6 +435,19 @@ def main():
                 scale = 10
                 continue
             break
+    race_runs = []
+    if corr_ok and cfg.get("race"):
+        race_reports, race_runs = run_race(prop, tier, seed)
+        seen = set()
+        for r in race_reports:
+            # one violation per distinct pair of racing functions
+            fns = tuple(re.findall(r"^  (\S+\(\))$", r["report"], re.M)[:2]) or (r["report"][:80],)
+            if fns in seen:
+                continue
+            seen.add(fns)
+            path = write_replay(prop, "data-race", None, dict(r, failed="Go race detector report on the concurrent suite",
+                                replay_note="re-run: build/harness-race -suite %s -seed %d -n %d (schedule dependent)" % (r["suite"], r["seed"], r["n"])))
+            race_violations.append(("counterexample", path))
     if unknown:
         broken.append({"what": "cases with neither model nor monitor", "detail": [c["suite"] for c in unknown[:5]]})
 
@@ -439,6 +479,7 @@ def main():
         path = write_replay(prop, kind, case, extra)
         violations.append((kind, path))
 
+    violations.extend(race_violations[:4])
     for c in monf:
         report(c, "counterexample", {"failed": "property monitor (theorem-level predicate) is false on the implementation's observation"})
     concrete = len(violations) > 0 or len(known_lines) > 0
@@ -471,7 +512,7 @@ def main():
             "rule": cfg.get("rule", "distinct (suite,input) pairs by SHA-256, excluding cases whose tags are all in the trivial list %s" % cfg.get("trivial_tags", [])),
             "traces_validated_against_impl": sum(1 for k in codes if k is not None and not (k & 1)),
             "model_disagreements": len(mism), "monitor_failures": len(monf),
-            "distribution": dists, "tag_counts": tagcount,
+            "distribution": dists, "tag_counts": tagcount, "race_detector_runs": race_runs,
             "samples": samples,
             "modelled_not_verified": cfg.get("modelled", ""),
         },
